@@ -1289,6 +1289,11 @@ class DenseSquareMatrix(InvertibleMatrix, ExplicitArrayMatrix):
                 transpose.
         """
         super().__init__(array.shape, _array=array)
+        if lu_and_piv is not None:
+            # As for other array parameters make factorization arrays read-only
+            for factor_array in lu_and_piv:
+                if isinstance(factor_array, np.ndarray):
+                    factor_array.flags.writeable = False
         self._lu_and_piv = lu_and_piv
         self._lu_transposed = lu_transposed
 
@@ -1433,6 +1438,9 @@ class DenseSymmetricMatrix(SymmetricMatrix, InvertibleMatrix, ExplicitArrayMatri
         super().__init__(array.shape, _array=array)
         if isinstance(eigvec, np.ndarray):
             eigvec = OrthogonalMatrix(eigvec)
+        if isinstance(eigval, np.ndarray):
+            # As for other array parameters make eigenvalue array read-only
+            eigval.flags.writeable = False
         self._eigvec = eigvec
         self._eigval = eigval
 
@@ -1555,6 +1563,9 @@ class EigendecomposedSymmetricMatrix(
         if isinstance(eigvec, np.ndarray):
             eigvec = OrthogonalMatrix(eigvec)
         super().__init__(eigvec.shape)
+        if isinstance(eigval, np.ndarray):
+            # As for other array parameters make eigenvalue array read-only
+            eigval.flags.writeable = False
         self._eigvec = eigvec
         self._eigval = eigval
         if not isinstance(eigval, np.ndarray) or eigval.size == 1:
